@@ -21,6 +21,8 @@ import sys
 import time
 import z3
 sys.path.insert(0, os.path.dirname(os.path.abspath(__file__)))
+# bound on the number of children / elements per node; the thorough tier of the driver raises it
+DEPTH = int(os.environ.get("MIRSYM_DEPTH", "3"))
 from mirsym import Engine, parse_mir, STD_MODELS, Unsupported, PanicFound, Ref, Opaque, is_sym
 
 
@@ -291,8 +293,8 @@ def main():
 
     try:
         for kind in ("list", "string"):
-            for nl in range(0, 4):
-                for nr in range(0, 4):
+            for nl in range(0, DEPTH + 1):
+                for nr in range(0, DEPTH + 1):
                     run(kind, nl, nr, False)
                 run(kind, nl, nl, True)
     except Unsupported as u:
